@@ -236,3 +236,136 @@ Theorem C06_response_local_addresses :
     exists i r, check_host sort enabled tbl qname qt = Some r /\ In i (r_ips r) /\ ip_val i = v.
 Proof. exact respond_local_addresses. Qed.
 Print Assumptions C06_response_local_addresses.
+
+(** ** Letter case (round 2)
+
+    [normalize] lower-cases the domain first, for every kind of entry (the
+    "A" / "AAAA" exceptions included): entries that differ only in the ASCII
+    letter case of the domain normalise to the same entry, so every theorem
+    above, stated on normalised tables, holds for every spelling. *)
+Theorem C06_normalize_case_insensitive :
+  (forall r, e_dom (normalize r) = to_lower (w_dom r)) /\
+  (forall r r', to_lower (w_dom r) = to_lower (w_dom r') -> w_ans r = w_ans r' ->
+                w_parse r = w_parse r' -> normalize r = normalize r') /\
+  (forall raws raws',
+     Forall2 (fun r r' => to_lower (w_dom r) = to_lower (w_dom r') /\ w_ans r = w_ans r' /\
+                          w_parse r = w_parse r') raws raws' ->
+     map normalize raws = map normalize raws').
+Proof. exact (conj normalize_dom (conj normalize_case_insensitive normalize_table_case_insensitive)). Qed.
+Print Assumptions C06_normalize_case_insensitive.
+
+(** The spelling of the queried name does not matter either. *)
+Theorem C06_query_case_insensitive :
+  forall (sort : list entry -> list entry) enabled tbl host host' qt,
+    to_lower host = to_lower host' ->
+    check_host sort enabled tbl host qt = check_host sort enabled tbl host' qt.
+Proof. exact check_host_case_insensitive. Qed.
+Print Assumptions C06_query_case_insensitive.
+
+(** "Name -> A" / "Name -> AAAA" typed in any letter case passes queries of
+    that type on, for the name in any letter case. *)
+Theorem C06_exceptions_case_insensitive :
+  forall sort, (forall l, Permutation (sort l) l) -> (forall l, sorted_by_compare (sort l)) ->
+  forall enabled raws host qt x,
+    In x raws -> to_lower (w_dom x) = to_lower host ->
+    (w_ans x = ans_A /\ qt = qA) \/ (w_ans x = ans_AAAA /\ qt = qAAAA) ->
+    is_wildcard (to_lower host) = false ->
+    (forall e, In e (map normalize raws) -> matches_host e (to_lower host) = true ->
+               is_cname e = false) ->
+    check_host sort enabled (map normalize raws) host qt = Some empty_result.
+Proof. exact type_exception_any_case. Qed.
+Print Assumptions C06_exceptions_case_insensitive.
+
+(** "Name -> name": the domain in any letter case, the answer in lower case. *)
+Theorem C06_exceptions_self_domain_case :
+  forall sort, (forall l, Permutation (sort l) l) -> (forall l, sorted_by_compare (sort l)) ->
+  forall enabled raws host qt x,
+    In x raws -> to_lower (w_dom x) = to_lower host -> w_ans x = to_lower host ->
+    is_cname (normalize x) = true ->
+    (forall e, In e (map normalize raws) -> e_dom e = to_lower host -> is_cname e = true ->
+               e_ans e = to_lower host) ->
+    check_host sort enabled (map normalize raws) host qt = Some empty_result.
+Proof. exact self_exception_any_case_domain. Qed.
+Print Assumptions C06_exceptions_self_domain_case.
+
+(** REFUTED for the code as it is: the answer is not lower-cased, so an entry
+    typed identically on both sides with capitals ("Pass.Host.test ->
+    Pass.Host.test" beside "*.host.test -> 1.2.3.4") is not an exception. *)
+Theorem C06_exceptions_self_answer_case_refuted :
+  exists raws host qt x,
+    In x raws /\ w_ans x = w_dom x /\ to_lower (w_dom x) = to_lower host /\
+    is_cname (normalize x) = true /\
+    (forall e, In e (map normalize raws) -> e_dom e = to_lower host -> is_cname e = true ->
+               to_lower (e_ans e) = to_lower host) /\
+    check_host isort true (map normalize raws) host qt <> Some empty_result.
+Proof. exact self_exception_answer_case_witness. Qed.
+Print Assumptions C06_exceptions_self_answer_case_refuted.
+
+(** ** Response side, every upstream reply (round 2) *)
+
+(** Every delivered message carries the original question, whatever the
+    upstream replied (any RCODE, any answer section). *)
+Theorem C06_response_question_original :
+  forall (sort : list entry -> list entry) upstream enabled tbl qname qt p,
+    respond sort upstream enabled tbl qname qt = Some p -> rp_qname p = qname.
+Proof. exact respond_question. Qed.
+Print Assumptions C06_response_question_original.
+
+(** The RCODE is the upstream's (its reply object is reused), 0 for a local
+    answer; at most one question is put to the upstream. *)
+Theorem C06_response_rcode :
+  forall (sort : list entry -> list entry) upstream enabled tbl qname qt p,
+    respond sort upstream enabled tbl qname qt = Some p ->
+    match rp_upstream p with
+    | [] => rp_rcode p = 0%N
+    | (n, t) :: rest => rest = [] /\ t = qt /\ rp_rcode p = fst (upstream n t)
+    end.
+Proof. exact respond_rcode. Qed.
+Print Assumptions C06_response_rcode.
+
+(** A CNAME without table addresses, for EVERY reply [(rc, ans)] of the
+    upstream to the canonical name (NXDOMAIN, SERVFAIL, NOERROR with an empty
+    answer section, ...): original question, the upstream's RCODE, the CNAME
+    in front of the upstream's records. *)
+Theorem C06_cname_via_upstream_negative :
+  forall (sort : list entry -> list entry) upstream enabled tbl qname qt r rc ans,
+    check_host sort enabled tbl qname qt = Some r ->
+    r_reason r = Rewritten -> r_canon r <> [] -> r_ips r = [] ->
+    upstream (r_canon r) qt = (rc, ans) ->
+    respond sort upstream enabled tbl qname qt =
+      Some {| rp_qname := qname; rp_rcode := rc;
+              rp_answer := RR_CNAME qname (r_canon r) :: ans;
+              rp_upstream := [(r_canon r, qt)] |}.
+Proof. exact respond_cname_via_upstream_any_reply. Qed.
+Print Assumptions C06_cname_via_upstream_negative.
+
+(** An upstream whose exchange may fail ([None]): [respond_e] agrees with
+    [respond] when it does not fail; when the handler does not fail the
+    question is the original one; it fails only because the one exchange
+    failed, and then a SERVFAIL for the name that was asked is sent. *)
+Theorem C06_response_failing_upstream :
+  forall sort, (forall l, Permutation (sort l) l) ->
+  (forall upstream enabled tbl qname qt,
+     respond_e sort (fun n t => Some (upstream n t)) enabled tbl qname qt =
+     option_map (fun p => (false, p)) (respond sort upstream enabled tbl qname qt)) /\
+  (forall upstream enabled tbl qname qt, respond_e sort upstream enabled tbl qname qt <> None) /\
+  (forall upstream enabled tbl qname qt p,
+     respond_e sort upstream enabled tbl qname qt = Some (false, p) -> rp_qname p = qname) /\
+  (forall upstream enabled tbl qname qt p,
+     respond_e sort upstream enabled tbl qname qt = Some (true, p) ->
+     exists n, rp_upstream p = [(n, qt)] /\ upstream n qt = None /\
+               rp_qname p = n /\ rp_rcode p = rcode_servfail /\ rp_answer p = []).
+Proof.
+  exact (fun sort H => conj (respond_e_no_error sort)
+          (conj (respond_e_terminates sort H)
+            (conj (respond_e_question sort) (respond_e_failed_only_by_upstream sort)))).
+Qed.
+Print Assumptions C06_response_failing_upstream.
+
+(** REFUTED for the code as it is: when the exchange for the canonical name
+    fails, the SERVFAIL that is sent carries the canonical name as question. *)
+Theorem C06_question_on_upstream_error_refuted :
+  exists upstream tbl qname qt p,
+    respond_e isort upstream true tbl qname qt = Some (true, p) /\ rp_qname p <> qname.
+Proof. exact question_on_upstream_error_witness. Qed.
+Print Assumptions C06_question_on_upstream_error_refuted.
